@@ -60,6 +60,10 @@ def setup():
     REC.append(('dl', x, y))
 
   @gin.configurable(module='c07')
+  def z0(a=0, b='', c=False, d=None, e=(), f_=0.0):
+    REC.append(('z0', a, b, c, d, e, f_))
+
+  @gin.configurable(module='c07')
   def never(z=0):
     REC.append(('never', z))
 
@@ -74,8 +78,8 @@ def setup():
   K.m.__qualname__ = 'K.m'
   gin.register(K.m)
   gin.register(K)
-  global F, G, CONSUMER, AL, DL, KCLS
-  F, G, CONSUMER, AL, DL, KCLS = f, g, consumer, al, dl, K
+  global F, G, CONSUMER, AL, DL, KCLS, Z0
+  F, G, CONSUMER, AL, DL, KCLS, Z0 = f, g, consumer, al, dl, K, z0
 
 
 # ------------------------------------------------------------------------------------- model data
@@ -87,6 +91,7 @@ SIG = {   # selector -> (positional names, representable+allowed defaults)
     'c07.dl': (['x', 'y'], {'x': 1}),
     'c07.K': (['self', 'w'], {'w': 'kw'}),
     'c07.K.m': (['self', 'v', 'u'], {'v': 'mv', 'u': None}),
+    'c07.z0': (['a', 'b', 'c', 'd', 'e', 'f_'], {'a': 0, 'b': '', 'c': False, 'd': None, 'e': (), 'f_': 0.0}),
     'gin.macro': (['value'], {}),
     'gin.constant': ([], {}),
 }
@@ -157,10 +162,17 @@ EVENTS = {
     'u/K().m()': ('K.m', ['u'], [], {}),
     "K().m(v='cv')": ('K.m', [], [], {'v': 'cv'}),
     'g()': ('c07.g', [], [], {}),
+    'f(a=REQ)': ('c07.f', [], [], {'a': 'REQ'}),
+    'f(REQ, b=REQ)': ('c07.f', [], ['REQ'], {'b': 'REQ'}),
+    "s:f('pos', REQ)": ('c07.f', ['s'], ['pos', 'REQ'], {}),
+    'z0()': ('c07.z0', [], [], {}),
+    'z0(0, b=None)': ('c07.z0', [], [0], {'b': None}),
+    's:z0(c=True)': ('c07.z0', ['s'], [], {'c': True}),
 }
 EVENTS_Q = ['f()', "f('pos')", 'f(b=2)', 's:f()', 's/t:f()', 'consumer()', "consumer('x')", 'al()', 'dl()',
             'K().m()', 'u/K().m()', "K().m(v='cv')", "s:f(a='ka')", 'al(y=5)', 'g()', 'bind f.b=1', 'bind f.b=True',
-            'bind g.t=%mm', 'bind g.t=%mm2', 'bind consumer.p=@s/g()', 'bind consumer.p=@u/g()']
+            'bind g.t=%mm', 'bind g.t=%mm2', 'bind consumer.p=@s/g()', 'bind consumer.p=@u/g()', 'z0()', 'z0(0, b=None)',
+            'f(a=REQ)', 'f(REQ, b=REQ)']
 
 
 def bound(tier):
@@ -184,9 +196,10 @@ def do_event(ev):
         inst = gin.get_configurable(KCLS)()
       inst.m(*args, **kwargs)
     else:
-      fn = {'c07.f': F, 'c07.g': G, 'c07.consumer': CONSUMER, 'c07.al': AL, 'c07.dl': DL}[target]
+      fn = {'c07.f': F, 'c07.g': G, 'c07.consumer': CONSUMER, 'c07.al': AL, 'c07.dl': DL, 'c07.z0': Z0}[target]
+      req = lambda v: gin.REQUIRED if v == 'REQ' else v  # noqa: E731
       with gin.config_scope(list(scope) if scope else None):
-        fn(*args, **kwargs)
+        fn(*[req(a) for a in args], **{k: req(v) for k, v in kwargs.items()})
     return 'ok'
   except Exception as e:  # pylint: disable=broad-except
     return type(e).__name__
@@ -253,7 +266,10 @@ class Model:
 
   def call(self, selector, eff, args, kwargs, has_self=False):
     pos, defaults = SIG[selector]
-    supplied = set(pos[:len(args) + (1 if has_self else 0)]) | set(kwargs)
+    names_pos = pos[:len(args) + (1 if has_self else 0)]
+    vals_pos = ([None] if has_self else []) + list(args)
+    # a parameter the caller marks gin.REQUIRED is supplied by Gin, not by the caller
+    supplied = {n for n, v in zip(names_pos, vals_pos) if v != 'REQ'} | {k for k, v in kwargs.items() if v != 'REQ'}
     ov = self.overlay(selector, eff)
     vals = dict(defaults)
     vals.update(ov)
@@ -344,6 +360,7 @@ class World:
     install(self.cname)
     self.model = Model(self.cname)
     self.events = []
+    self.failed = False
 
   def ops(self):
     return World.EVS
@@ -354,6 +371,8 @@ class World:
   def apply(self, ev, res, hist):
     out = do_event(ev)
     self.events.append(ev)
+    if out != 'ok':
+      self.failed = True
     if out == 'ok':
       self.model.event(ev)
     else:
@@ -392,7 +411,8 @@ class World:
       return
     # ---- (2) replay
     # (replay equivalence is stated for a fixed configuration: not applied to histories that re-bind between calls)
-    if not self.model.nonrep_supplied and not any(e in REBIND for e in self.events):
+    # ... nor to histories containing a call that failed (the statement speaks of calls that received arguments)
+    if not self.model.nonrep_supplied and not self.failed and not any(e in REBIND for e in self.events):
       del REC[:]
       outs = [do_event(e) for e in self.events]
       if REC != records_first:
